@@ -253,6 +253,39 @@ theorem run_sim (data : List Nat) (hb : ∀ b ∈ data, b < 256) (reqs : List Ar
       simp only [Bool.or_self, Bool.false_eq_true, if_false, Bool.and_eq_true, beq_iff_eq]
       exact ⟨hv he, ih d' s' hs (fun r hr => hall r (List.mem_cons_of_mem _ hr))⟩
 
+/-- **Coefficient-token reads.**  `read_with_tree_with_first_node` on the DCT token tree with ANY
+    node probabilities, entered at the root or - after a zero token, where an end-of-block is
+    impossible - at node 1 (tree index 2, as RFC 6386 section 13.2 prescribes): the value and the
+    decoder state it leaves simulate the RFC's `treed_read` from that index, on every path (speculative
+    or fallback) and up to exhaustion -/
+theorem token_read_refines_rfc (data : List Nat) (hb : ∀ b ∈ data, b < 256) (ps : List Nat) (hl : ps.length = 11)
+    (hp : ∀ p ∈ ps, p < 256) (start : Nat) (hs : start < 11) (d : Dec) (s : BoolDec.St) (h : ArithRfc.Sim data d s) :
+    ∃ v d' v' s', Vp8Coef.readTreeFrom d (ArithRfc.nodesOf Gen.Tables.DCT_TOKEN_TREE ps) start = some (v, d') ∧
+      BoolDec.readTree Gen.Tables.DCT_TOKEN_TREE ps 12 s (2 * start) = some (v', s') ∧ ArithRfc.Sim data d' s' ∧
+      (isPastEof d' = false → v = v') := by
+  have hgood : ArithRfc.treeGood Gen.Tables.DCT_TOKEN_TREE ps = true :=
+    reqok_tree_good _ _ ⟨by decide, by rw [hl]; decide, hp⟩
+  have f := ArithRfc.treeFacts _ _ hgood
+  have hlen : Gen.Tables.DCT_TOKEN_TREE.length / 2 = 11 := by decide
+  have hsz : (ArithRfc.nodesOf Gen.Tables.DCT_TOKEN_TREE ps).size = 11 := by rw [f.size, hlen]
+  have hnode := f.node start (by rw [hlen]; exact hs)
+  obtain ⟨r, hfast⟩ := ArithRfc.fast_tree_total _ _ f d.chunks 11 12 start d.state _ (by rw [hlen]; omega) (by omega)
+    (by rw [hlen]; exact hs) hnode
+  have hall : ∀ (k : Nat) (nd : Node), (ArithRfc.nodesOf Gen.Tables.DCT_TOKEN_TREE ps)[k]? = some nd → nd.prob < 256 := by
+    intro k nd hk
+    have hk' : k < 11 := by
+      have := (Array.getElem?_eq_some_iff.mp hk).1
+      rw [hsz] at this; exact this
+    rw [f.node k (by rw [hlen]; exact hk')] at hk
+    injection hk with hk
+    rw [← hk]
+    exact f.prob k (by rw [hlen]; exact hk')
+  have hpi := read_tree_from_node_path_independent d _ hall h.2.1 start _ hnode r (by rw [hsz]; exact hfast)
+  rw [hsz] at hpi
+  obtain ⟨v, d', v', s', h1, h2, h3, h4⟩ := ArithRfc.tree_sim _ _ f data hb 11 12 12 start d s (by rw [hlen]; omega) (by omega) (by omega)
+    (by rw [hlen]; exact hs) h
+  exact ⟨v, d', v', s', by rw [hpi]; exact h1, h2, h3, h4⟩
+
 /-- **Refinement to RFC 6386 section 7.3 (the property at full strength).** For every byte
     string whose first byte is not 0xFF and every program of requests - booleans with any byte
     probability, flags, literals and optional signed values of up to 8 bits, and reads with any
